@@ -419,6 +419,20 @@ class Builder:
             dsts = [str(D.wells[i % D.wells.shape[0], d]) for i in range(n)]
             order = list(range(n)); rng.shuffle(order)
             srcs = [srcs[i] for i in order]; dsts = [dsts[i] for i in order]
+        if si == di and n >= 2 and rng.random() < 0.5:
+            # a serial dilution inside one labware: every destination is the source of the next step
+            # (down a column, along a row, or along a random path) — in argument order
+            R, C = S.wells.shape
+            x = rng.random()
+            if x < 0.4 and R >= 2:
+                c = rng.randrange(C)
+                path = [str(S.wells[i % R, c]) for i in range(n + 1)]
+            elif x < 0.8 and C >= 2:
+                r = rng.randrange(R)
+                path = [str(S.wells[r, i % C]) for i in range(n + 1)]
+            else:
+                path = [rng.choice(sw) for _ in range(n + 1)]
+            srcs, dsts = path[:-1], path[1:]
         return srcs, dsts
 
     def op_transfer(self, fail=None):
